@@ -155,7 +155,7 @@ def m_x_Name(self, st, n, k):
     raise Untranslated('name %s' % n.id)
 
 
-DYN_METHODS = {'to_bytes', 'search', 'encode', 'decode', 'items', 'get', 'append', 'pack_impl', 'unpack_impl', 'clone', 'as_prototype', 'find'}
+DYN_METHODS = {'to_bytes', 'search', 'encode', 'decode', 'items', 'get', 'append', 'pack_impl', 'unpack_impl', 'clone', 'as_prototype', 'find', 'ljust', 'rjust'}
 
 EXC_NAMES = {'Exception', 'ValueError', 'TypeError', 'KeyError', 'IndexError', 'AttributeError',
              'NotImplementedError', 'AssertionError', 'SyntaxError', 'ImportError', 'OverflowError',
@@ -753,8 +753,13 @@ def m_call_detrole(self, st, role, fid, pos, kws, kwstar, k):
     # WFClass (slot sets of distinct table entries are disjoint) + purity of pack (C13): an abstract
     # entry does not write the value slots of the concretely modelled fixed fields of the same packet
     pk = kws.get('pkt', pos[0] if pos else None)
-    if pk is not None and role.startswith('FIELD'):
+    if pk is not None and (role.startswith('FIELD') or role.startswith('SYNC')):
+        if role.startswith('SYNC'):
+            self.used_assumptions.add('a descriptor sync hook writes only the hidden slots of described fields (Auto.sync_before_pack: proved, C17), '
+                                      'never the value slot of a field without descriptor')
         for nm in getattr(self, 'tv_fixed_names', []):
+            if role.startswith('SYNC') and nm.startswith('_described_'):
+                continue
             n_ = z3.StringVal(nm)
             st.assume(z3.Select(z3.Select(st.heap['slots'], pk.z), n_) == z3.Select(z3.Select(old_slots, pk.z), n_))
             st.assume(z3.Select(z3.Select(st.heap['has'], pk.z), n_) == z3.Select(z3.Select(old_has, pk.z), n_))
@@ -815,6 +820,10 @@ def m_bind_args(self, c, pos, kws, kwstar):
             continue
         if p not in env:
             d = getattr(c, 'defaults', {}).get(p)
+            if d is None and p.startswith('ghost_'):
+                # a ghost parameter of the callee's contract (universally quantified in its own proof): any value
+                env[p] = self.wrap(c.params[p], fresh(p, self.kind_sort(c.params[p])))
+                continue
             if d is None:
                 raise Untranslated('missing argument %s for %s' % (p, c.name))
             env[p] = SpecEval(self, None, {}).ev(ast.parse(d, mode='eval').body) if isinstance(d, str) else d
@@ -929,7 +938,8 @@ def m_call_contract(self, st, c, pos, kws, kwstar, k, site=''):
     elif c.returns.startswith('new:'):
         res = VRef(fresh('res', T.I), c.returns[4:])
     else:
-        res = self.wrap(c.returns, fresh('res', self.kind_sort(c.returns)))
+        rk = 'dyn' if c.returns == 'any' else c.returns
+        res = self.wrap(rk, fresh('res', self.kind_sort(rk)))
     env3['result'] = res
     # a returned reference designates an object that exists in the post-state
     if isinstance(res, (VRef, VList)) and not c.returns.startswith('same:'):
@@ -1830,6 +1840,33 @@ def m_bi_all(self, st, pos, kws, k):
     return _any_all(self, st, pos, k, 'all')
 
 
+def m_bm_bytes_ljust(self, st, v, pos, kws, k):
+    """b.ljust(width, fill): b itself when it is long enough, else b followed by padding (uninterpreted beyond that)"""
+    w, bad = self.as_int(pos[0])
+    padded = z3.Function('bytes_ljust', T.Bytes, T.I, T.Bytes)(v.z, w)
+    st.assume(z3.Implies(T.blen(v.z) < w, z3.And(T.blen(padded) == w, T.bslice(padded, 0, T.blen(v.z)) == v.z)))
+    res = z3.If(T.blen(v.z) >= w, v.z, padded)
+    return self.with_raises(st, [(bad, 'TypeError')], lambda st: k(st, VBytes(res)))
+
+
+def m_bm_bytes_rjust(self, st, v, pos, kws, k):
+    w, bad = self.as_int(pos[0])
+    padded = z3.Function('bytes_rjust', T.Bytes, T.I, T.Bytes)(v.z, w)
+    st.assume(z3.Implies(T.blen(v.z) < w, T.blen(padded) == w))
+    res = z3.If(T.blen(v.z) >= w, v.z, padded)
+    return self.with_raises(st, [(bad, 'TypeError')], lambda st: k(st, VBytes(res)))
+
+
+def m_bm_dyn_ljust(self, st, v, pos, kws, k):
+    return self.with_raises(st, [(z3.Not(T.Val.is_VBy(v.z)), 'AttributeError')],
+                            lambda st: self.bm_bytes_ljust(st, VBytes(T.Val.byval(v.z)), pos, kws, k))
+
+
+def m_bm_dyn_rjust(self, st, v, pos, kws, k):
+    return self.with_raises(st, [(z3.Not(T.Val.is_VBy(v.z)), 'AttributeError')],
+                            lambda st: self.bm_bytes_rjust(st, VBytes(T.Val.byval(v.z)), pos, kws, k))
+
+
 def m_bm_bytes_decode(self, st, v, pos, kws, k):
     """bytes.decode(): a str that is a function of the bytes; undecodable input raises UnicodeDecodeError (a ValueError)"""
     ok = z3.Function('bytes_decodable', T.Bytes, T.B)(v.z)
@@ -2280,6 +2317,11 @@ def m_s_ImportFrom(self, st, s, k):
             st.loc[a.asname or a.name] = VRef(pc, 'PktClass')
             st.assume(z3.And(z3.Select(st.heap['PktClass.pack_impl'], pc) == T.Val.VF(z3.Int('GENERIC_PACK_IMPL')),
                              z3.Select(st.heap['PktClass.unpack_impl'], pc) == T.Val.VF(z3.Int('GENERIC_UNPACK_IMPL'))))
+        elif a.name in self.classes:
+            pass        # a class of the schema: the name resolves to the class as usual
+        elif a.name in self.module_funcs:
+            # a function of the library that is under contract (or a role): the local name denotes it
+            st.loc[a.asname or a.name] = VFunc('contract', self.module_funcs[a.name], None)
         else:
             raise Untranslated('import of %s' % key)
     return k(st)
@@ -2371,6 +2413,26 @@ def m_assign(self, st, target, v, k):
                     raise Untranslated('assignment to unknown attribute %s.%s' % (base.cls, target.attr))
                 self.write_attr(st, base, target.attr, v)
                 return k(st)
+            if isinstance(base, VDyn):
+                # attribute assignment on a dynamically typed receiver: one path per schema class that declares the
+                # attribute (root classes only), anything else is outside the value model (AttributeError path)
+                owners = [c for c in self.classes if target.attr in self.classes[c].get('attrs', {})]
+                roots = [c for c in owners if not any(o != c and self.is_subclass(c, o) for o in owners)]
+                if not roots:
+                    raise Untranslated('assignment to attribute .%s of a dynamic value' % target.attr)
+                rest = st
+                for cls in roots:
+                    isobj = z3.And(T.Val.is_VR(base.z), self.inst_of(T.Val.rval(base.z), cls))
+                    s2 = rest.fork('recv-is-' + cls)
+                    s2.assume(isobj)
+                    if self.feasible(s2, z3.BoolVal(True)):
+                        self.write_attr(s2, VRef(T.Val.rval(base.z), cls), target.attr, v)
+                        k(s2)
+                    rest = rest.fork()
+                    rest.assume(z3.Not(isobj))
+                if self.feasible(rest, z3.BoolVal(True)):
+                    self.do_raise(rest, VExc('AttributeError'))
+                return
             raise Untranslated('attribute assignment on %s' % base.kind)
         return self.ev(st, target.value, got)
     if isinstance(target, ast.Subscript):
